@@ -121,14 +121,21 @@ class GenBuild:
         self.dir, self.driver, self.asn1c_rc, self.asn1c_out, self.ok, self.err = d, driver, asn1c_rc, asn1c_out, ok, err
 
 
-def prune_cache(keep=10):
+def prune_cache(keep=40):
+    """drops the oldest cached builds; never one that is being built or used right now (parallel builders,
+    other checks): only finished builds untouched for 15 minutes are candidates"""
     base = os.path.join(SCRATCH, "gen")
     try:
         ds = sorted((os.path.join(base, d) for d in os.listdir(base)), key=os.path.getmtime)
     except OSError:
         return
+    now = time.time()
     for d in ds[:-keep]:
-        shutil.rmtree(d, ignore_errors=True)
+        try:
+            if os.path.exists(os.path.join(d, "verif-build.json")) and now - os.path.getmtime(d) > 900:
+                shutil.rmtree(d, ignore_errors=True)
+        except OSError:
+            pass
 
 
 def build_module(module, flags=(), san="plain", extra_sources=(), driver_src=None, wrap=True):
